@@ -264,8 +264,15 @@ def run_big(case):
 
     try:
         base = fit_model(spec, data, fit_desc)
+    except RuntimeError as e:
+        if "too few intervals" in str(e):
+            return {"viol": [], "n": 1, "nontrivial": 0, "count": {"base_fit_refused_too_few_intervals": 1}}
+        bad("fit_exception", {"type": "RuntimeError", "msg": str(e)[:160], "fit": fit_desc})
+        return {"viol": viol, "n": 1, "nontrivial": 1}
     except Exception as e:
-        return {"viol": [], "n": 1, "nontrivial": 0, "count": {"base_fit_refused_" + type(e).__name__: 1}}
+        # the description is valid (every dimension only gets options its family supports): fitting must not fail
+        bad("fit_exception", {"type": type(e).__name__, "msg": str(e)[:160], "fit": fit_desc})
+        return {"viol": viol, "n": 1, "nontrivial": 1}
     s0 = snapshot(base)
     for clause, detail in check_per_interval(spec, base, data, fit_desc, 1e-9 if exact else 1e-6):
         bad(clause, detail)
@@ -395,8 +402,11 @@ def main(ctx):
                     continue
                 sp = dict(spec, slicers=[list(sl)] * len(spec["dims"]))
                 fvs = fit_variants(spec)
-                if q:
-                    fvs = fvs[:1] + fvs[-1:]
+                if q:   # quick: default, weighted least squares on every dimension that supports it (others None / mle)
+                    names_ = [d.get("marginal") or d.get("template") for d in spec["dims"]]
+                    wl = [({"method": "wlsq", "weights": "quadratic"} if nm == "ew" else None) for nm in names_]
+                    wl2 = [({"method": "wlsq", "weights": "quadratic"} if nm == "ew" else {"method": "mle"}) for nm in names_]
+                    fvs = [None] + ([wl, wl2] if any(w is not None for w in wl) else [[{"method": "mle"}] * len(names_)])
                 for fv in fvs:
                     big = {"kind": "big", "spec": sp, "n": n, "fit": fv}
                     if q or n == 20000:
